@@ -22,7 +22,7 @@ import (
 func TestVF_C20_Keystream(t *testing.T) {
 	rec := vfh.New(t, "C20")
 	defer rec.Flush()
-	reps := rec.N(16, 80)
+	reps := rec.N(16, 600)
 	defer runtime.GOMAXPROCS(runtime.GOMAXPROCS(0))
 	for rep := 0; rep < reps; rep++ {
 		if !rec.Mine(rep) {
